@@ -46,7 +46,9 @@ def r1_driver(ctx):
     bad = []
     n = 0
     import statemodel
-    for below, owner in (((), 0), (("b0",), 0), (("b0", "b1"), 0), (("b0",), 1)):
+    # (population sizes: the operator decides what empty parents / empty offspring mean - the driver hands them over like any others)
+    for (below, owner), (npar, noff) in [(bo, (1, 1)) for bo in (((), 0), (("b0",), 0), (("b0", "b1"), 0), (("b0",), 1))] + \
+                                        [((("b0",), 0), sz) for sz in ((1, 0), (0, 1), (0, 0), (2, 1))]:
         for outcome, label in ((ok(Vec("result")), "ok"), (err(Sym("boom")), "err")):
             def repl(interp, env, f, args):
                 got = (getattr(load(interp, env, args[1]), "vid", None), getattr(load(interp, env, args[2]), "vid", None))
@@ -58,13 +60,13 @@ def r1_driver(ctx):
             table = {REPL + "Replacement::replace": repl}
             it = install(Interp(fn.body, chain(mk_oracle(table), store, StackModel(sf), coll_oracle, std_oracle), [Sym("component"), Sym("problem"), Sym("state")], facts=F,
                                 inline=lambda k: k.startswith(POP + "::") or INL(k) or statemodel.inline(k), max_visits=10))
-            heap = {"parents": (c07.ind(0),), "offspring": (c07.ind(1),), "result": (c07.ind(2),)}
+            heap = {"parents": tuple(c07.ind(20 + i) for i in range(npar)), "offspring": tuple(c07.ind(30 + i) for i in range(noff)), "result": (c07.ind(2),)}
             for j, bname in enumerate(below):
                 heap[bname] = (c07.ind(10 + j),)
             it.init_state = {"outcome": outcome, "stack": tuple(Vec(x) for x in below) + (Vec("parents"), Vec("offspring")), "heap": heap, "next_vec": 0}
             store.install(it)
             n += 1
-            where = "with %d other population(s) underneath%s, " % (len(below), " and the stack owned by the enclosing scope" if owner else "")
+            where = "with %d other population(s) underneath%s, %d parent(s) and %d offspring, " % (len(below), " and the stack owned by the enclosing scope" if owner else "", npar, noff)
             for p in it.run():
                 names = [getattr(x, "vid", repr(x)) for x in p.mstate.get("stack", ())]
                 rargs = p.mstate.get("replace_args", ())
